@@ -8,10 +8,11 @@ from hypothesis import strategies as st
 from ECAgent.Core import Model, System
 from ECAgent.Collectors import Collector
 from ECAgent.Batching import ParameterList, batch_run
-from vf.engine import Violation, InvalidCase
+from vf.engine import Violation, InvalidCase, quiesce
 from vf.fixtures import check, expect_raises
 
 PROPERTY = "C15"
+CASE_TIMEOUT_S = 20      # a case normally takes < 0.2 s; see DESIGN.md 2.9 (hang handling)
 BUDGET = {"quick": 800, "thorough": 1200}
 RULE = ("Parameter grids over the fixture model's kwargs (a, b: small lists with repeated values or scalars; stop = the model's own "
         "completion time, scalar or list; cost = per-run sleep 0-4 ms so that completion order is permuted), as dict and as "
@@ -53,8 +54,8 @@ class Bomb(System):
 
 
 class SigCollector(Collector):
-    def __init__(self, id, model, sig, sign):
-        super().__init__(id, model)
+    def __init__(self, id, model, sig, sign, **kw):
+        super().__init__(id, model, **kw)
         self.sig = sig
         self.sign = sign
 
@@ -75,6 +76,7 @@ class BatchModel(Model):
             self.systems.add_system(Bomb(self, sig))
         self.systems.add_system(SigCollector("rec", self, sig, 1))
         self.systems.add_system(SigCollector("rec2", self, sig, -1))
+        self.systems.add_system(SigCollector("pre", self, sig, 1, priority=20))     # runs BEFORE the finisher: sees timestep `stop` too
 
 
 def values(v):
@@ -82,6 +84,13 @@ def values(v):
 
 
 def run_case(case):
+    try:
+        return _run_case(case)
+    finally:
+        quiesce()
+
+
+def _run_case(case):
     a, b, stop = case["a"], case.get("b", 0), case.get("stop", 3)
     cost = int(case.get("cost", 0))
     reps = max(1, min(int(case.get("reps", 1)), 3))
@@ -156,6 +165,9 @@ def run_case(case):
             return rec
         if coll == ["rec"]:
             return {"rec": rec}
+        if coll == ["pre", "rec"]:
+            n = min(int(s) + 1, int(max_ts)) if max_ts is not None else int(s) + 1
+            return {"pre": [(sig, t) for t in range(n)], "rec": rec}
         return {"rec": rec, "rec2": rec2}
     expected = [exp_one(sig, s) for _ in range(reps) for sig, (_, _, s) in zip(sigs, combos)]
     norm = lambda r: repr(_tup(r))
@@ -173,7 +185,7 @@ def run_case(case):
                 raise Violation("result-impure", f"{desc}: result {i} has timesteps {ts}")
             if ss:
                 s = int(next(iter(ss)).rsplit("stop=", 1)[1])
-                if len(ts) > limit(s):
+                if len(ts) > limit(s) + 1:
                     raise Violation("ran-past-limit", f"{desc}: result {i} of {next(iter(ss))} has {len(ts)} timesteps, limit is {limit(s)}")
     got_c, exp_c = Counter(map(norm, res)), Counter(map(norm, expected))
     if got_c != exp_c:
@@ -192,7 +204,7 @@ def run_case(case):
         flat = [id(x) for x in res] + ([id(v) for r in res for v in r.values()] if coll != "rec" else [])
         if len(set(flat)) != len(flat):
             raise Violation("results-shared", f"{desc}: the same list object is returned for several executions")
-    labels = [f"procs{min(procs, 4)}{'+' if procs >= 4 else ''}", f"reps{reps}", "coll-" + ("rec" if coll == "rec" else ("list1" if coll == ["rec"] else "list2"))]
+    labels = [f"procs{min(procs, 4)}{'+' if procs >= 4 else ''}", f"reps{reps}", "coll-" + ("rec" if coll == "rec" else ("list1" if coll == ["rec"] else ("pre+rec" if coll[0] == "pre" else "list2")))]
     if max_ts is not None:
         labels.append("limit-below" if any(int(max_ts) < int(s) for _, _, s in combos) else "limit-at-or-above")
     if len(set(sigs)) < len(sigs):
@@ -219,7 +231,7 @@ def strategy(tier):
         "reps": st.integers(1, 3),
         "processes": st.one_of(st.just(1), st.integers(2, maxp), st.integers(2, maxp), st.integers(2, 3)),
         "max_timesteps": st.one_of(st.none(), st.integers(0, 8)),
-        "collectors": st.sampled_from(["rec", "rec", "rec", ["rec"], ["rec", "rec2"], ["rec", "rec2"], "none", "invalid"]),
+        "collectors": st.sampled_from(["rec", "rec", ["pre", "rec"], ["pre", "rec"], ["rec"], ["rec", "rec2"], "none", "invalid"]),
         "plist": st.booleans(),
         "fail": st.one_of(st.none(), st.none(), st.none(), st.none(), st.integers(0, 11)),
         "fail_where": st.sampled_from(["ctor", "system"]),
@@ -236,6 +248,7 @@ def exhaustive(tier):
         n = len(values(g["a"])) * len(values(g["b"])) * len(values(g["stop"]))
         for p in procs:
             yield dict(g, cost=2, reps=2, processes=p, max_timesteps=None, collectors="rec", plist=False, fail=None)
+            yield dict(g, cost=2, reps=2, processes=p, max_timesteps=9, collectors=["pre", "rec"], plist=True, fail=None)
             for pos in range(n):
                 for where in ("ctor", "system"):
                     yield dict(g, cost=2, reps=1, processes=p, max_timesteps=None, collectors="rec", plist=False, fail=pos, fail_where=where)
